@@ -21,7 +21,7 @@ def member_names(env, d, part):
     return None
 
 
-def gen_raw_driver(envs, groups, ninner, stem):
+def gen_raw_driver(envs, groups, ninner, stem, with_swap=True):
     src = ['#include "%s.pp.hpp"' % stem, '#include <stddef.h>', '#include "raw_driver.hpp"',
            "void print_tables() {"]
     seen = set()
@@ -73,7 +73,7 @@ def gen_raw_driver(envs, groups, ninner, stem):
         roots.append(env.name(len(env.defs)))
     src.append("}")
     src.append("const reg_entry REGISTRY[] = {")
-    for name in roots:
+    for name in (roots if with_swap else roots[:1]):
         src.append('    {"%s", &run_swap<%s>},' % (name, name))
     src.append("};")
     src.append("const size_t REGISTRY_SIZE = sizeof(REGISTRY) / sizeof(REGISTRY[0]);")
@@ -118,7 +118,7 @@ def worker(inner_defs, groups, extra):
         os.mkdir(sub)
         try:
             envs, text = render_batch(inner_defs, gs)
-            drv, expect = gen_raw_driver(envs, gs, len(inner_defs), "b")
+            drv, expect = gen_raw_driver(envs, gs, len(inner_defs), "b", with_swap="swap" in checks)
             exe = build_raw(text, sub, "b", drv)
             built.append((gs, envs, exe, sub, expect))
         except C.BuildFailure as e:
